@@ -3,7 +3,7 @@ import ast
 
 from ..model import AnalysisError
 from ..terms import SELF, is_const, show
-from ..codec import EncoderLayout, DecoderLayout, U
+from ..codec import EncoderLayout, DecoderLayout, U, pdu_classes, method_of
 from ..codec_cmp import compare_class, enc_items, src_field
 from ..codec_prims import check_primitives
 from ..catalogue import catalogue
@@ -63,14 +63,14 @@ def check(ctx):
     n = 0
     for name, (tcode, low, body_spec) in SPEC.items():
         c = mod.classes.get(name)
-        if c is None or "encode" not in c.methods:
+        if c is None or method_of(prog, c, "encode") is None:
             ctx.ob("S1", "%s class exists" % name, False, where="src/mqtt/pdu.py", construct="mqtt.pdu.%s/missing" % name, msg="no class %s with encode()" % name)
             continue
         n += 1
         enc = EncoderLayout(prog, c)
         hdr, remlen, body = enc_items(enc)
         encfn = "mqtt.pdu.%s.encode" % name
-        w = "src/mqtt/pdu.py:%d" % c.methods["encode"].node.lineno
+        w = "src/mqtt/pdu.py:%d" % method_of(prog, c, "encode").node.lineno
         # ---------------- S1 ----------------
         first = hdr[0] if hdr else None
         if first is None or first["kind"] != "byte":
@@ -264,9 +264,7 @@ def check(ctx):
         ctx.ob("S5", "encodeString prefix counts the UTF-8 bytes", True, where="src/mqtt/pdu.py", construct="mqtt.pdu.encodeString/prefix")
     if not [p for p in probs if p.rule == "S7"]:
         ctx.ob("S7", "over-long strings raise a ValueError subclass (limit 65535)", True, where="src/mqtt/pdu.py", construct="mqtt.pdu.encodeString/overlong-guard")
-    for name, c in mod.classes.items():
-        if "encode" not in c.methods or "decode" not in c.methods:
-            continue
+    for name, c in pdu_classes(prog).items():
         problems, stats, encm, decm = compare_class(prog, c)
         for p in problems:
             if p.rule == "L5":
@@ -287,7 +285,7 @@ def check(ctx):
     ctx.ob("S7", "PUBLISH payload type dispatch ends in a raise", bool(tguard), where="src/mqtt/pdu.py", construct="mqtt.pdu.PUBLISH/payload-type-raise",
            msg="a payload that is neither bytearray nor str does not raise")
     big = None
-    for x in ast.walk(mod.classes["PUBLISH"].methods["encode"].node):
+    for x in ast.walk(method_of(prog, mod.classes["PUBLISH"], "encode").node):
         if isinstance(x, ast.If) and any(isinstance(y, ast.Raise) for y in x.body) and isinstance(x.test, ast.Compare) and len(x.test.ops) == 1:
             ok, cst = prog.try_fold(x.test.comparators[0], mod)
             if ok and isinstance(cst, int) and cst > 65535:
